@@ -1222,9 +1222,7 @@ fn main() {
 	ctx.floor("nest_jar: tables with a created enclosing class", 1, s.get("nest_jar:created-enclosing-class"));
 	if !smoke {
 		ctx.floor("nest_jar: tables with a chain of depth >= 5", 1, s.get("nest_jar:chain-depth>=5"));
-		if !quick {
-			ctx.floor("nest_jar: tables with a chain of depth >= 6", 1, s.get("nest_jar:chain-depth>=6"));
-		}
+		// (depth >= 6 needs a missing class that is created and nested too: counted in `outcomes`, no floor)
 		ctx.floor("nest_jar: applied nests whose inner name another applied nest of the table has too", 100, s.get("nest_jar:applied:inner-name-shared-with-another-applied-nest"));
 	}
 	ctx.floor("nest_jar: applied nests of a class that already has the nested name (universe odd-a)", 1, s.get("nest_jar:applied-to-a-class-that-already-has-the-nested-name"));
@@ -1272,7 +1270,7 @@ fn main() {
 	}
 	ctx.note("tables whose enclosing-class relation has a cycle are not chains and are not explored in-process".to_string());
 
-	let exhaustive_note = if quick { "tables of <= 1 entry: complete over the 22 kinds; 2 entries: complete over 12 kinds, both orders; 3 entries: complete over 4 kinds" } else { "tables of <= 2 entries: complete over the 22 kinds, both orders; 3 entries: complete over 8 kinds (reverse order: 4 kinds); 4 entries: complete over the 3 applying kinds (stated cap)" };
+	let exhaustive_note = if quick { "tables of <= 1 entry: complete over all kinds in every universe; 2 entries: complete over 12 kinds, both orders (further universes: 6 kinds); 3 entries: complete over 4 kinds; chains of <= 4 entries in every line order" } else { "tables of <= 2 entries: complete over all kinds, both orders (further universes: 6 kinds); 3 entries: complete over 8 kinds (reverse order: 4 kinds); 4 entries: complete over the 3 applying kinds (stated cap); chains of <= 5 entries in every line order" };
 	let coverage = json!({
 		"evaluations": s.evaluations,
 		"distinct_nontrivial": s.distinct.len(),
